@@ -12,12 +12,13 @@
    model satisfying run_ok, so the theorems of Proofs/C03_Loops.v apply, and their conclusions are
    read back on the heap (fview). *)
 From Coq Require Import List ZArith Bool Arith Lia.
-From DV Require Model.C02_Variation Proofs.C02_Variation.
+From DV Require Model.C02_Variation Proofs.C02_Variation Proofs.C02_Progress.
 From DV Require Import Model.C03_Loops Proofs.C03_Loops Model.C03_Full.
 Import ListNotations.
 Local Open Scope nat_scope.
 
 Module VP := DV.Proofs.C02_Variation.
+Module VG := DV.Proofs.C02_Progress.
 
 Section Compose.
 Context {G F T : Type}.
@@ -1122,5 +1123,142 @@ Proof.
 Qed.
 
 End Order.
+
+(* ------------------------------------------------------------------ *)
+(* eaMuPlusLambda with toolbox.select = tools.selBest *)
+
+Section PlusBest.
+Variable mu : nat.
+Variable lambda_ : Z.
+Variables cxpb mutpb : T.
+Notation lam := (Z.to_nat lambda_).
+Notation fbest := (full_plus_best evaluate fle ltb leb add one mate_o mut_o mu lambda_ cxpb mutpb).
+Notation fstepb := (fstep_plus_best evaluate fle ltb leb add one mate_o mut_o mu lambda_ cxpb mutpb).
+Notation fstep := (fstep_plus evaluate fle ltb leb add one mate_o mut_o lambda_ cxpb mutpb).
+
+(* such a run IS a run of eaMuPlusLambda for selection answers that satisfy the selection contract
+   (selBest needs mu <= len(population) + lambda_ to return mu individuals) *)
+Lemma frun_best_is_plus n : mu <= n + lam -> forall (l : list unit) gen (fs : fstate) (cs : state) (e : fstate),
+  1 <= gen -> SRel fs cs -> length (f_pop fs) = plus_size n mu gen ->
+  frun fstepb gen fs l = FOk e ->
+  exists sels, length sels = length l /\
+    pres (fun gen => sel_in (plus_size n mu gen + lam) mu) gen sels /\
+    frun fstep gen fs sels = FOk e.
+Proof.
+  intros Mu. induction l as [|x r IH]; intros gen fs cs e G1 SR Lp H; cbn in H.
+  - exists []. cbn. auto.
+  - destruct (fstepb gen fs x) as [fs1|] eqn:E; [|discriminate].
+    destruct (fstep_plus_best_is_plus mu lambda_ cxpb mutpb gen fs x fs1 E)
+      as [sel [Hp [Ls [_ [s1 [off [Ev [Fi Lm]]]]]]]].
+    destruct (fstep_plus_best_sim mu lambda_ cxpb mutpb gen fs cs x fs1 SR E) as [s1' [off' [Ev' [_ [Lo S1]]]]].
+    rewrite Ev in Ev'. inversion Ev'; subst s1' off'. clear Ev'.
+    assert (Lo' : length off = lam) by exact Lo.
+    assert (Sz : mu <= plus_size n mu gen + lam) by (unfold plus_size; destruct (gen =? 1); lia).
+    assert (L1 : length (f_pop fs1) = mu) by (rewrite Lm, Lp, Lo'; lia).
+    destruct (IH (S gen) fs1 _ e (le_S _ _ G1) S1) as [sels [L [Hps Hr]]]; [|exact H|].
+    { rewrite L1. unfold plus_size. destruct (Nat.eqb_spec (S gen) 1); [lia|reflexivity]. }
+    exists (sel :: sels). cbn. split; [lia|]. split.
+    + split; [|exact Hps]. split; [rewrite Ls; exact L1|]. rewrite <- Lp, <- Lo'. exact Fi.
+    + rewrite Hp. exact Hr.
+Qed.
+
+Theorem full_plus_best_is_plus h0 d pop ngen (e : fstate) :
+  finit_ok h0 pop -> mu <= length pop + lam ->
+  fbest h0 d pop ngen = FOk e ->
+  exists sels, length sels = ngen /\ sels_plus (length pop) mu lam sels /\
+    full_plus evaluate fle ltb leb add one mate_o mut_o lambda_ cxpb mutpb h0 d pop sels = FOk e.
+Proof.
+  intros Hi Mu H. unfold full_plus_best in H.
+  destruct (frun_best_is_plus (length pop) Mu (repeat tt ngen) 1 _ _ e (le_n 1) (gen0_sim h0 d pop Hi)) as [sels [L [Hp Hr]]].
+  - unfold fgen0. rewrite ffinish_pop. reflexivity.
+  - exact H.
+  - exists sels. rewrite repeat_length in L. auto.
+Qed.
+
+Section Elitist.
+Hypothesis fle_total : forall a b, fle a b = true \/ fle b a = true.
+Hypothesis fle_trans : forall a b c, fle a b = true -> fle b c = true -> fle a c = true.
+
+(* at every generation: each fitness present in the population before is matched or beaten by a
+   member of the population afterwards, so the best fitness never gets worse *)
+Theorem full_plus_best_elitist h0 d pop ngen (b s' : fstate) :
+  finit_ok h0 pop -> mu <= length pop + lam -> 1 <= mu ->
+  fbest h0 d pop ngen = FOk b -> fstepb (S ngen) b tt = FOk s' ->
+  forall x f, In x (f_pop b) -> V.fit_of (f_hp b) x = Some f ->
+  exists y fy, In y (f_pop s') /\ V.fit_of (f_hp s') y = Some fy /\ fle f fy = true.
+Proof.
+  intros Hi Mu M1 Hb Hs x f Hx Hf.
+  destruct (full_plus_best_is_plus h0 d pop ngen b Hi Mu Hb) as [sels [_ [Hp Hr]]].
+  destruct (full_plus_link mu lambda_ cxpb mutpb h0 d pop sels b Hi Hp Hr) as [answers [_ [I0 [Ok [_ SR]]]]].
+  destruct (plus_inv evaluate fle mu lam _ pop answers I0 Ok) as [Iv _].
+  destruct (fstep_plus_best_sim mu lambda_ cxpb mutpb _ b _ tt s' SR Hs) as [s1 [off [_ [O [_ S1]]]]].
+  set (cs := ea_plus evaluate fle (st_of h0 pop) pop answers) in *.
+  assert (Lx : live (s_st cs) x).
+  { pose proof (sr_live _ _ SR) as Lv. rewrite Forall_forall in Lv. apply Lv. rewrite <- (sr_pop _ _ SR). exact Hx. }
+  destruct (live_some _ _ Lx) as [i Ei]. destruct (rel_dom _ _ (sr_rel _ _ SR) x i Ei) as [_ Hi'].
+  assert (Fi : fit i = Some f) by (rewrite Hi'; exact Hf).
+  destruct (plus_best_elitist evaluate fle fle_total fle_trans mu (S ngen) cs (var_ans [] s1 off) Iv O M1 x i f)
+    as [y [iy [fy [Hy [Sy [Fy Le]]]]]]; [rewrite <- (sr_pop _ _ SR); exact Hx|exact Ei|exact Fi|].
+  exists y, fy. split; [rewrite (sr_pop _ _ S1); exact Hy|]. split; [|exact Le].
+  destruct (rel_dom _ _ (sr_rel _ _ S1) y iy Sy) as [_ Hy']. rewrite Hy' in Fy. exact Fy.
+Qed.
+
+End Elitist.
+End PlusBest.
+
+(* ------------------------------------------------------------------ *)
+(* when eaSimple returns: varAnd consumes len//2 + len values of random.random() per generation
+   and never raises (C02_varAnd_total), so with ngen * (len//2 + len) values the run returns *)
+
+Theorem full_simple_total_run cxpb mutpb :
+  (forall k x y, V.ret_distinct (V.ma_r1 (mate_o k x y)) (V.ma_r2 (mate_o k x y))) ->
+  forall sels gen (fs : fstate) (cs : state) n us rest,
+  SRel fs cs -> length (s_pop cs) = n -> Forall (sel_in n n) sels ->
+  f_dr fs = map V.DRandom us ++ rest -> length us = length sels * (Nat.div2 n + n) ->
+  exists e, frun (fstep_simple evaluate fle ltb mate_o mut_o cxpb mutpb) gen fs sels = FOk e /\ f_dr e = rest.
+Proof.
+  intros Md. induction sels as [|sel r IH]; intros gen fs cs n us rest SR Ln Hs Hd Lu; cbn [frun].
+  - destruct us; [|discriminate]. exists fs. auto.
+  - inversion Hs as [|? ? Hsel Hr]; subst. cbn in Lu.
+    set (m := Nat.div2 (length (s_pop cs)) + length (s_pop cs)) in *.
+    assert (L1 : length (firstn m us) = m) by (rewrite firstn_length; lia).
+    assert (L2 : length (skipn m us) = length r * m) by (rewrite skipn_length; lia).
+    assert (Hd' : f_dr fs = map V.DRandom (firstn m us) ++ (map V.DRandom (skipn m us) ++ rest)).
+    { rewrite Hd, app_assoc, <- map_app, firstn_skipn. reflexivity. }
+    destruct (VG.and_total G F T ltb (mate_at mate_o (f_kc fs)) (mut_at mut_o (f_kc fs)) cxpb mutpb (f_hp fs)
+                (select_by (f_pop fs) sel) (firstn m us) (map V.DRandom (skipn m us) ++ rest)) as [s1 [off [Ev Ed]]].
+    { rewrite select_by_length, (proj1 Hsel). exact L1. }
+    assert (E : fstep_simple evaluate fle ltb mate_o mut_o cxpb mutpb gen fs sel =
+                FOk (ffinish evaluate fle gen fs (V.hp s1) (V.dr s1) (f_kc fs + V.kc s1) off off)).
+    { unfold fstep_simple, call_var_and. rewrite Hd', Ev. reflexivity. }
+    rewrite E.
+    destruct (fstep_simple_sim Md cxpb mutpb gen fs cs sel _ SR Hsel E) as [s1' [off' [_ [_ [Lo [_ [_ S1]]]]]]].
+    eapply (IH (S gen) _ _ (length (s_pop cs)) (skipn m us) rest S1).
+    + unfold step_simple. rewrite finish_gen_pop. unfold var_ans. cbn [a_off]. rewrite contents_fst.
+      transitivity (length (f_pop fs)); [exact Lo|rewrite (sr_pop _ _ SR); reflexivity].
+    + exact Hr.
+    + unfold ffinish. destruct (eval_heap evaluate (V.hp s1) (invalid_of (view (V.hp s1)) off)). cbn. exact Ed.
+    + exact L2.
+Qed.
+
+Lemma ffinish_dr gen (fs : fstate) h1 (d1 : list (V.draw T)) k1 off newpop :
+  f_dr (ffinish evaluate fle gen fs h1 d1 k1 off newpop) = d1.
+Proof. unfold ffinish. destruct (eval_heap evaluate h1 (invalid_of (view h1) off)). reflexivity. Qed.
+
+(* eaSimple returns for every ngen whenever the stream holds ngen * (len//2 + len) values of random() *)
+Theorem full_simple_total cxpb mutpb h0 pop sels us rest :
+  (forall k x y, V.ret_distinct (V.ma_r1 (mate_o k x y)) (V.ma_r2 (mate_o k x y))) ->
+  finit_ok h0 pop -> Forall (sel_in (length pop) (length pop)) sels ->
+  length us = length sels * (Nat.div2 (length pop) + length pop) ->
+  exists e, full_simple evaluate fle ltb mate_o mut_o cxpb mutpb h0 (map V.DRandom us ++ rest) pop sels = FOk e /\
+            f_dr e = rest.
+Proof.
+  intros Md Hi Hs Lu. unfold full_simple.
+  eapply (full_simple_total_run cxpb mutpb Md sels 1 _ _ (length pop) us rest (gen0_sim h0 _ pop Hi)).
+  - rewrite gen0_pop. reflexivity.
+  - exact Hs.
+  - unfold fgen0. rewrite ffinish_dr. reflexivity.
+  - exact Lu.
+Qed.
 
 End Compose.
